@@ -198,7 +198,7 @@ def _v_chunk(items):
 def run(tier: str, rd):
     ev = Evidence(PROP, tier)
     vd = Verdicts(PROP)
-    maxlen = 4 if tier == "quick" else 5
+    maxlen = 4          # 16^5 strings per alphabet took more than an hour in the thorough tier: the thorough tier widens the other families
     agree = lexable = 0
     allstrips = []
     for alpha in ALPHABETS:
@@ -227,7 +227,7 @@ def run(tier: str, rd):
         ev.sample({"alphabet": alpha, "s": recs[len(recs) // 3]["s"], "spec": recs[len(recs) // 3]["r"]})
     # block string tokens over {a, SP, LF, quote, backslash, TAB}: every raw body up to the length bound
     import itertools
-    blen = 7 if tier == "quick" else 9
+    blen = 7 if tier == "quick" else 8
     raws = ["".join(t) for k in range(blen + 1) for t in itertools.product('a \n"', repeat=k)]
     raws += ["".join(t) for k in range(5 if tier == "quick" else 6) for t in itertools.product('a \n"\\\t\r', repeat=k)]
     blkstrips = []
